@@ -360,6 +360,9 @@ class Loader:
         if (mod, attr) in (("_weakref", "ref"), ("weakref", "ref")):
             from .builtins_ import BUILTINS
             return BUILTINS["weakref.ref"]
+        if (mod, attr) == ("copy", "copy"):
+            from .builtins_ import BUILTINS
+            return BUILTINS["copy"]
         if (mod, attr) == ("types", "NoneType"):
             v = self.ext_class("NoneType", type(None))
             self.externals[key] = v
